@@ -21,6 +21,20 @@ CLAIMS = {
         "crossed part breaks the element/charge balance of every step that contains that part. NOT decided: the arithmetic inside each part "
         "(dropped term, wrong coefficient, sign error in add_*/x*_save), non-negativity, and conservation as a numerical fact."),
   note=NOTE_COMMON + "Kind vocabulary derived from the store types (engine/kinds.py). The claim is labelled `other`; it does not establish conservation."),
+ "C04": dict(
+  technique="sibling agreement of the delivery entry points (event sequences, handler ladders, tails) + phase-list agreement between do_run and run_simulations + who-may-write census of engine state on the per-call path + control-dependence restriction on the per-call forced flag",
+  text=("Static structural analysis of how input reaches the engine. Decided: (a) RunString, RunFile and RunAccumulated execute the same event sequence "
+        "(calls on the instance/engine and field writes) inside their try blocks, the same handler ladders and the same tails, up to the stream "
+        "construction and the accumulated-lines bookkeeping, and AccumulateLine honours the lazy-clear flag before appending; (b) per simulation, "
+        "IPhreeqc::do_run calls the same ordered list of engine phases under the same engine-side guards as Phreeqc::run_simulations, the stand-alone "
+        "loop compiled into the library; (c) the engine state the wrapper writes on the per-call path is exactly a frozen transient set (simulation "
+        "counter, first_read_input, error counter, pr.all, punch streams, the forced heading flag ...) - no definition store is written per call; "
+        "(d) engine code that is control-dependent on the only per-call forced flag (SelectedOutput::new_def of an engine-resident block) writes no "
+        "SelectedOutput data and no engine member other than print/punch switches and cursors, so cutting the input into calls can only change when "
+        "headings are written. Necessary conditions of 'results depend only on the input text'. NOT decided: equality of observable results over all "
+        "cut points (whether a legitimately per-call variable leaks into results is behavioural)."),
+  note=NOTE_COMMON + "Frozen table: c04_percall.json (13 transient engine writes, 4 members the forced-flag region may write, each with a reason; rows that no "
+       "longer match a write are reported as analysis-broken)."),
  "C05": dict(
   technique="tri-sink must-pass-through shape analysis + sibling (overload-family) structural agreement + who-may-call/who-may-write census + guarded-index and padding shape rules + enum-total switches",
   text=("Static structural analysis of the selected-output path (IPhreeqc.cpp, CSelectedOutput.cpp, Var.c, PHRQ_io.cpp, PHRQ_io_output.cpp). Decided: "
